@@ -278,6 +278,11 @@ async def _scenario(loop, sc):
     import aioftp
 
     wd = W.World(loop, [W.UserSpec(None, None)], backend=sc["rbackend"])
+    seg = sc.get("segment")
+    if seg:
+        # the network delivers the data in pieces of at most `seg` bytes: a read() returns less than it asked for
+        # although more is to come
+        wd.net.default_segmenter = lambda direction, b: [b[i : i + seg] for i in range(0, len(b), seg)] or [b]
     await wd.start()
     ltmp = None
     old_cwd = None
@@ -638,6 +643,15 @@ def gen_scenarios(ctx, search=False):
                                  rng.random() < 0.5, lcwd=rng.choice(["/", "/lw"]), rbackend=rb, lbackend=lb,
                                  src_name=rng.choice(["foo", "a", "q", "d2", "s p"]), rem_name=rng.choice(["t2", "r r", "rem"]),
                                  abs_source=rng.random() < 0.7, variant=rng.randrange(1000)))
+    # (3b) files of several blocks over a network that delivers less than a block at a time
+    big = ("D", {"big1": ("F", bytes(range(256)) * 37), "d": ("D", {"big2": ("F", bytes((i * 7) % 251 for i in range(20001))), "small": ("F", b"s")}), "empty": ("F", b"")})
+    for seg in (1000, 8191, 1):
+        for bs in ((8192, 3) if seg != 1 else (3,)):
+            for m in (True, False):
+                sc = make_scenario(big if seg != 1 else FIXED[1], big if seg != 1 else FIXED[1], "d", True, "/", m, bs, "", False, variant=n - n % 10)
+                sc["segment"] = seg
+                scs.append(sc)
+                n += 1
     # (4) ONE session, the same relative destination used from two working directories (and again after a remove)
     for j, node in enumerate(FIXED[:6] + small_dirs[:6]):
         for d, wi in (("d", True), ("", False), ("d", False), ("d1/d2", True)):
